@@ -238,6 +238,8 @@ ROUTE_PARTS = {
     "diff_comp_at_early": (lambda sm, E, e, v: sm.Differential(e, compute_early=True), lambda sm, E, o, v, p: o.component_at(v, p)),
     "fwd_after_asexp": (lambda sm, E, e, v: _after_asexp(sm.Partial(e, v)), lambda sm, E, o, v, p: o.at(p)),
     "eval": (lambda sm, E, e, v: e, lambda sm, E, o, v, p: o.at(p)),
+    "diff_at_all": (lambda sm, E, e, v: sm.Differential(e), lambda sm, E, o, v, p: (lambda ld: [ld.component(w) for w in v])(o.at(p))),
+    "diff_at_early_all": (lambda sm, E, e, v: sm.Differential(e, compute_early=True), lambda sm, E, o, v, p: (lambda ld: [ld.component(w) for w in v])(o.at(p))),
 }
 
 LATE_NUMERIC = ["fwd", "fwd_obj", "rev", "rev_obj", "diff_at", "diff_comp_at", "diff_comp"]
